@@ -25,9 +25,17 @@ import (
 
 const (
 	verifDir   = "/verif"
-	repoDir    = "/repo"
 	modulePath = "github.com/skycoin/skycoin"
 )
+
+// repoDir is the tree under check. GOSX_REPO points the engine at a scratch
+// worktree (used by tools/seedcheck.sh only; registered commands use /repo).
+var repoDir = func() string {
+	if d := os.Getenv("GOSX_REPO"); d != "" {
+		return d
+	}
+	return "/repo"
+}()
 
 type HarnessDef struct {
 	Prop     string
